@@ -156,6 +156,39 @@ def bits(carrier, dtype, spelling):
     sx.reach("bits")
 
 
+def bits_kept(carrier, dtype):
+    """one accessor object (b = var.bits) used for several operations: two writes to disjoint fields accumulate,
+    and reads through the same accessor return what was written"""
+    w = min(WIDTH[dtype], 32)
+    top = w - 1 if dtype not in SIGNED else w - 2
+    split = 1 + sx.choice(top, "split")          # field 1 = bits 0..split-1, field 2 = bits split..top
+    rb, raw = _fresh_raw(dtype)
+    car = CARRIERS[carrier](dtype, lambda v: None)
+    car.set_raw_bytes(sx.items(rb))
+    tag = "C20/bits-kept/%s" % carrier
+    b = car.var.bits
+    k1, k2 = slice(0, split), slice(split, top + 1)
+    m1, m2 = (1 << split) - 1, (1 << (top + 1 - split)) - 1
+    v1 = sx.fresh_int("v1", 0, m1)
+    v2 = sx.fresh_int("v2", 0, m2)
+    try:
+        b[k1] = v1
+        r1 = b[k1]
+        b[k2] = v2
+        r2, r1b = b[k2], b[k1]
+    except Exception as e:
+        sx.observe("exc", C.exc_name(e))
+        sx.fail("kept bit accessor raised %s" % C.exc_name(e), tag + "/raises")
+        return
+    new = sx.le_int(car.raw_bytes(), dtype in SIGNED)
+    full = (1 << WIDTH[dtype]) - 1
+    sx.observe("new", new)
+    keep = (raw & full) & ~((m1) | (m2 << split))
+    sx.prove((new & full) == (keep | v1 | (v2 << split)), "both fields written, nothing else changed", tag + "/write")
+    sx.prove((r1 == v1) & (r1b == v1) & (r2 == v2), "reads through the same accessor", tag + "/readback")
+    sx.reach("bits-kept")
+
+
 def desc(carrier, dtype, m):
     """setting a description writes the value it names; reading returns the description of the
     current raw value; a raw value outside the table raises"""
@@ -190,6 +223,16 @@ def desc(carrier, dtype, m):
             sx.fail("unknown description %r accepted" % unknown, tag + "/unknown-accepted")
         except ValueError:
             pass
+    # the table is a public attribute: edited in place between two uses, the current table counts
+    if m >= 2:
+        vd = car.odvar.value_descriptions
+        vd[keys[0]], vd[keys[1]] = texts[1], texts[0]           # swap two names
+        car.var.desc = texts[0]
+        new = sx.le_int(car.raw_bytes(), dtype in SIGNED)
+        sx.prove(new == keys[1], "description written from the current table (after an in-place edit)",
+                 tag + "/write-after-edit")
+        vd[keys[0]], vd[keys[1]] = texts[0], texts[1]           # and back
+        sx.reach("desc-edited")
     # read for an arbitrary raw value
     rb, raw = _fresh_raw(dtype)
     car.set_raw_bytes(sx.items(rb))
@@ -309,6 +352,8 @@ def jobs(tier):
             for sp in ("int", "list", "slice", "slice1", "name"):
                 out.append(dict(func="bits", params=dict(carrier=carrier, dtype=dtype, spelling=sp),
                                 weight=WIDTH[dtype]))
+        for dtype in (U8, U32, I32) if tier == "quick" else (U8, U16, U32, I32, I16):
+            out.append(dict(func="bits_kept", params=dict(carrier=carrier, dtype=dtype), weight=WIDTH[dtype]))
         for dtype in (U8, U16, I32):
             for m in ((1, 3) if tier == "quick" else (1, 2, 3, 8, 20)):
                 out.append(dict(func="desc", params=dict(carrier=carrier, dtype=dtype, m=m), weight=m))
@@ -354,7 +399,7 @@ META = dict(
                     "writing the sign bit of a signed type through .bits", "non-contiguous bit lists"],
     assumptions=["z3 FP theory for float64 arithmetic"],
     stubs=["struct", "bytes", "dict displays -> SymDict", "logging"],
-    required_reach=["bits", "desc", "desc-outside", "phys-int", "phys-float", "phys-real", "phys-large", "phys-samples"],
+    required_reach=["bits", "bits-kept", "desc", "desc-edited", "desc-outside", "phys-int", "phys-float", "phys-real", "phys-large", "phys-samples"],
     limits=dict(quick=dict(query_timeout_ms=200000), thorough=dict(query_timeout_ms=900000)),
     validate_every=dict(quick=7, thorough=3),
 )
